@@ -20,6 +20,7 @@ RULE = ("stream 'recv': stanza descriptors — every supported kind (text / exte
         "class / exactly one acknowledgement echoing id, type, from, participant. stream 'send': every supported outgoing entity kind (real "
         "entity classes) x 16 flag sets: number of stanzas leaving the group vs model, and the stanza must equal entity.toProtocolTreeNode(). "
         "distinct = distinct (descriptor, flags, encryption).")
+RULE += (" An element the library does not know before / after the stanza's own children (named-children stanzas); ib stanzas with one supported child must give exactly one entity.")
 ASSUMPTIONS = ["replies to registered requests are C08's subject; decryption of enc messages is C03's", "entity parsing of the injected fixtures is C09's subject"]
 
 FLAGSETS = ["".join(b) for b in itertools.product("01", repeat=4)]
@@ -129,6 +130,8 @@ def rand_desc(r):
         d["callOffer"] = r.choice([0, 1])
     elif tag == "streamError":
         d["errKnown"] = r.choice([0, 1])
+    if tag in ("notification", "message", "iq", "ib", "receipt", "call") and r.random() < 0.3:
+        d[r.choice(["lead", "trail"])] = 1       # an element the library does not know, before / after the stanza's own children
     return d
 
 
@@ -199,6 +202,11 @@ def cases(chk):
     for i, (d, _f) in enumerate(send_kinds()):
         for f in FLAGSETS:
             yield "send", {"k": i, "flags": f}
+    # an element the library does not know before / after the stanza's own children: routing does not change
+    # (for the stanzas whose documented shape has named children; a chat state IS its only child)
+    for d in SUPPORTED:
+        for k in ("lead", "trail") if d["tag"] in ("notification", "message", "iq", "ib", "receipt", "call") else ():
+            yield "recv", {"d": dict(d, **{k: 1}), "flags": "1111", "enc": 0}
     for _ in range(chk.scale(800, 20000)):
         yield "recv", {"d": rand_desc(r), "flags": r.choice(FLAGSETS), "enc": r.choice([0, 1])}
 
@@ -208,7 +216,11 @@ def nontrivial(stream, case):
 
 
 def desc_line(d):
-    return " ".join("%s=%s" % (k, v) for k, v in sorted(d.items()) if k not in ("participant", "text"))
+    return " ".join("%s=%s" % (k, v) for k, v in sorted(d.items()) if k not in ("participant", "text", "lead", "trail"))
+
+
+def desc_show(d):
+    return desc_line(d) + ("".join(" [an unknown element %s the stanza's own children]" % ("before" if k == "lead" else "after") for k in ("lead", "trail") if d.get(k)))
 
 
 def observe_recv(chk, case, seq):
@@ -304,14 +316,14 @@ def _recv_once(chk, case, seq):
     model = chk.driver.ask("route recv %d %s %s" % (case["enc"], case["flags"], desc_line(d)))
     chk.hit("recv:" + d["tag"] + (":" + d.get("ntype", "") if d["tag"] == "notification" else ""), "enc=%d" % case["enc"])
     if impl != model:
-        fails.append(corr("recv:" + d["tag"], "stanza %s flags %s enc %d: impl=%s (%r) model=%s" % (desc_line(d), case["flags"], case["enc"], impl, raised, model)))
+        fails.append(corr("recv:" + d["tag"], "stanza %s flags %s enc %d: impl=%s (%r) model=%s" % (desc_show(d), case["flags"], case["enc"], impl, raised, model)))
     # ---- oracle (C06): what reaches the application is an entity
     if any(e is None for e in got):
         fails.append(oracle("C06:none-delivered:%s" % desc_line(d).replace(" ", ","), "stanza %s (modules %s): None instead of an entity reaches the application"
-                            % (desc_line(d), case["flags"])))
+                            % (desc_show(d), case["flags"])))
     # ---- oracle (C06): never more than one entity
     if len(ups) > 1:
-        fails.append(oracle("C06:incoming-duplicated", "stanza %s (modules %s) produced %d entities: %s" % (desc_line(d), case["flags"], len(ups), ups)))
+        fails.append(oracle("C06:incoming-duplicated", "stanza %s (modules %s) produced %d entities: %s" % (desc_show(d), case["flags"], len(ups), ups)))
     # ---- oracle (C06): a stanza of a kind that is supported in every module selection produces exactly one entity
     must = None
     if d["tag"] in ("receipt", "ack", "presence", "chatstate"):
@@ -321,14 +333,16 @@ def _recv_once(chk, case, seq):
     elif (d["tag"] == "message" and d.get("hasProto") and d.get("mtype") == "media" and case["flags"][1] == "1"
           and d.get("media") not in (None, "absent", "other") and d.get("payload") != "keyDistributionOnly"):
         must = "media message"
+    elif d["tag"] == "ib" and sum(1 for c in ("cDirty", "cOffline", "cAccount") if d.get(c)) == 1:
+        must = "ib"                  # (one child of a kind the library presents; whatever else the server put next to it)
     if must == "text message" and raised is None and len(ups) == 1 and got[0] is not None:
         want = stanzas.TEXTS[d.get("text", 0)]
         body = got[0].getBody() if hasattr(got[0], "getBody") else getattr(got[0], "text", None)
         if want is not None and body != want:
-            fails.append(oracle("C06:incoming-text-altered", "text stanza %s with body %r (modules %s): the entity's body is %r" % (desc_line(d), want, case["flags"], body)))
+            fails.append(oracle("C06:incoming-text-altered", "text stanza %s with body %r (modules %s): the entity's body is %r" % (desc_show(d), want, case["flags"], body)))
     if must and raised is None and len(ups) != 1:
         fails.append(oracle("C06:incoming-lost:%s" % must.replace(" ", "-"), "stanza %s%s (modules %s, encryption layers %s): %d entities reached the application, expected exactly one"
-                            % (desc_line(d), " with body %r" % stanzas.TEXTS[d["text"]] if d.get("text") else "", case["flags"], bool(case["enc"]), len(ups))))
+                            % (desc_show(d), " with body %r" % stanzas.TEXTS[d["text"]] if d.get("text") else "", case["flags"], bool(case["enc"]), len(ups))))
     # ---- oracle (C07): acknowledgements
     if d["tag"] == "notification" and not (d.get("ntype") == "picture" and not d.get("cSet") and not d.get("cDelete")):
         acks = [n for n in sent if n.tag == "ack"]
@@ -345,7 +359,7 @@ def _recv_once(chk, case, seq):
                 what = "acknowledgement %r does not match the notification %r" % (got_, want)
         if what:
             sig = "C07:notification-ack:%s%s" % (d.get("ntype", "other"), ":encryption-layer" if (case["enc"] and d.get("ntype") == "encrypt" and (d.get("cCount") or d.get("cIdentity"))) else "")
-            fails.append(oracle(sig, "notification %s (modules %s, encryption layers %s): %s" % (desc_line(d), case["flags"], bool(case["enc"]), what)))
+            fails.append(oracle(sig, "notification %s (modules %s, encryption layers %s): %s" % (desc_show(d), case["flags"], bool(case["enc"]), what)))
     if d["tag"] == "call" and raised is None:
         rc = [n for n in sent if n.tag == "receipt"]
         ak = [n for n in sent if n.tag == "ack"]
@@ -354,7 +368,7 @@ def _recv_once(chk, case, seq):
         else:
             ok = len(ak) == 1 and not rc and ak[0]["id"] == node["id"] and ak[0]["class"] == "call"
         if not ok:
-            fails.append(oracle("C07:call-ack", "call stanza %s: sent back %s" % (desc_line(d), [str(n).replace("\n", "") for n in sent])))
+            fails.append(oracle("C07:call-ack", "call stanza %s: sent back %s" % (desc_show(d), [str(n).replace("\n", "") for n in sent])))
     if d["tag"] == "iq" and d.get("xmlns") == "ping":
         pg = [n for n in sent if n.tag == "iq" and n["type"] == "result"]
         if len(pg) != 1 or pg[0]["id"] != node["id"]:
